@@ -198,6 +198,9 @@ Corruptions(R) ==
     \cup UNION {{[R EXCEPT ![i] = v] : v \in {0, 255, (R[i] + 128) % 256}} : i \in 1..Len(R)}
     \cup {SubSeq(R, 1, n) : n \in 1..(Len(R) - 1)}
     \cup {R \o x : x \in {<<0>>, <<255, 255>>, <<R[Len(R) - 1], R[Len(R)]>>}}
+    \* the trailer blanked (a gateway that does not fill in the CRC), all ones, and every value of each trailer byte (thorough)
+    \cup {[R EXCEPT ![Len(R) - 1] = v, ![Len(R)] = v] : v \in {0, 255}}
+    \cup (IF Thorough THEN UNION {{[R EXCEPT ![i] = v] : v \in 0..255} : i \in {Len(R) - 1, Len(R)}} ELSE {})
     \* the two trailer bytes exchanged (a CRC sent high byte first), and neighbouring payload bytes exchanged
     \cup {[R EXCEPT ![Len(R) - 1] = R[Len(R)], ![Len(R)] = R[Len(R) - 1]]}
     \cup {[R EXCEPT ![i] = R[i + 1], ![i + 1] = R[i]] : i \in 1..(Len(R) - 2)}
